@@ -4,6 +4,7 @@ save, delete, walk (which pages are replaced by which), read (the comment constr
 import MutagenModel.Model.Container.OggInject
 import MutagenModel.Model.Container.OggInjectM
 import MutagenModel.Model.Container.OggInjectLoadM
+import MutagenModel.Model.Container.OggInjectFullM
 import Driver.Util
 import Driver.FlacC
 import Driver.Ogg
@@ -87,6 +88,13 @@ def oggFaultOp (a : Args) : Option String :=
   | "deletem", some c =>
     let f := a.bytes "data"
     some (showResult (deleteEntry (a.nat "B" 1048576) c f (a.bytes "vendor") (a.bytes "paddata") (envOf a) { data := f }))
+  | "savefull", some c =>
+    -- save with its reads as a program (Model/Container/OggInjectFullM.lean)
+    let f := a.bytes "data"
+    some (showResult (saveFullM (a.nat "B" 1048576) c (a.bytes "vc") (a.bytes "paddata") (padOf a) (envOf a) { data := f }))
+  | "deletefull", some c =>
+    let f := a.bytes "data"
+    some (showResult (deleteFullM (a.nat "B" 1048576) c (a.bytes "vendor") (a.bytes "paddata") (envOf a) { data := f }))
   | "loadm", some c =>
     -- `OggX(fileobj)`: verify_fileobj's read(0), the info constructor, the tags constructor, `_post_tags`
     let f := a.bytes "data"
